@@ -124,6 +124,8 @@ def python_obligations(rep, prop="C12"):
                         site = n.func.value
                         if _guarded_singleton(fn, n):
                             site = None
+                    if isinstance(site, (ast.GeneratorExp, ast.ListComp)) and site.generators:
+                        site = site.generators[0].iter          # ", ".join(f(x) for x in <set>)
                     if site is None or not _is_set_expr(site, setnames, setattrs):
                         continue
                     ob = Obligation(id=f"{prop}.B.set-iteration.{f}:{fn.name}:{n.lineno}", props=[prop], unit=f"{rel}:{fn.name}",
@@ -169,3 +171,32 @@ def _guarded_singleton(fn, popcall):
             if "len(" in t and "== 1" in t:
                 return True
     return False
+
+
+def determinism_document():
+    """a document rich in the places where a set could leak its iteration order into generated text: unions of several
+    const / enum / model members, models importing many siblings, operations with several response types"""
+    s = {"type": "string"}
+    consts = [{"const": v} for v in ("asc", "desc", "ASC", "DESC", "natural", "random")]
+    schemas = {
+        "A": {"type": "object", "properties": {"x": s}},
+        "B": {"type": "object", "properties": {"y": {"type": "integer"}}},
+        "C": {"type": "object", "properties": {"z": {"type": "boolean"}}},
+        "Color": {"type": "string", "enum": ["red", "green", "blue"]},
+        "Level": {"type": "integer", "enum": [1, 2, 3]},
+        "SortRequest": {"type": "object", "properties": {
+            "two": {"oneOf": consts[:2]}, "six": {"oneOf": consts}, "mixed": {"anyOf": [{"type": "integer"}] + consts[:3]},
+            "models": {"oneOf": [{"$ref": f"#/components/schemas/{n}"} for n in "ABC"]},
+            "enums": {"anyOf": [{"$ref": "#/components/schemas/Color"}, {"$ref": "#/components/schemas/Level"}, {"type": "null"}]},
+            "many": {"type": "array", "items": {"oneOf": [{"$ref": f"#/components/schemas/{n}"} for n in "CBA"] + [{"type": "string", "format": "date"}]}},
+            "when": {"type": "string", "format": "date-time"}, "id": {"type": "string", "format": "uuid"}}},
+    }
+    ok = {"200": {"description": "", "content": {"application/json": {"schema": {"$ref": "#/components/schemas/A"}}}},
+          "201": {"description": "", "content": {"application/json": {"schema": {"$ref": "#/components/schemas/B"}}}},
+          "202": {"description": "", "content": {"application/json": {"schema": {"$ref": "#/components/schemas/C"}}}},
+          "400": {"description": "", "content": {"text/plain": {"schema": s}}}}
+    params = [{"name": "order", "in": "query", "schema": {"oneOf": consts[:4]}},
+              {"name": "thing", "in": "query", "schema": {"oneOf": [{"$ref": "#/components/schemas/Color"}, {"$ref": "#/components/schemas/Level"}]}}]
+    paths = {"/sort": {"post": {"operationId": "sort", "parameters": params, "responses": ok,
+                                "requestBody": {"content": {"application/json": {"schema": {"$ref": "#/components/schemas/SortRequest"}}}}}}}
+    return {"openapi": "3.1.0", "info": {"title": "det", "version": "1"}, "paths": paths, "components": {"schemas": schemas}}
